@@ -164,9 +164,15 @@ int _GD_MogrifyFile(DIRFILE* D, gd_entry_t* E, unsigned long encoding,
           GD_FILE_READ) == -1)
     {
       _GD_SetEncIOError(D, GD_E_IO_WRITE, E->e->u.raw.file + 0);
-    } else
-      _GD_DoSeek(D, E, enc_out, -offset * E->EN(raw,spf), GD_FILE_WRITE
-          | GD_FILE_TEMP);
+    } else if (_GD_DoSeek(D, E, enc_out, -offset * E->EN(raw,spf) - 1,
+          GD_FILE_WRITE | GD_FILE_TEMP) != -1)
+    {
+      /* a seek alone leaves nothing behind when there turns out to be no data
+       * to copy after it, so write the last sample of the padding explicitly */
+      static const char zero[GD_SIZE(GD_COMPLEX128)];
+      if (_GD_WriteOut(E, enc_out, zero, E->EN(raw,data_type), 1, 1) < 1)
+        _GD_SetEncIOError(D, GD_E_IO_WRITE, E->e->u.raw.file + 1);
+    }
   } else { /* new offset is more, truncate old file */
     if ((*enc_in->seek)(E->e->u.raw.file, offset * E->EN(raw,spf),
           E->EN(raw,data_type), GD_FILE_READ) == -1)
